@@ -33,6 +33,9 @@ MOD = "ufl.cell"
 def run(ctx) -> Report:
     rep = Report("C26")
     prog = ctx.prog
+    # the memo-key clause first: it needs no interpretation, and what it finds is reported even if a later clause cannot follow the code
+    from ..memokey import check_memo_keys, memo_rule  # noqa: F401
+    memo_rule(ctx, rep, "C26-key", ["ufl.cell"])
     m = prog.module(MOD)
     ip = Interp(prog)
     ip.instantiable = {"Cell", "TensorProductCell"}
@@ -228,5 +231,4 @@ def run(ctx) -> Report:
     rep.assumptions = ["weakref.proxy and numbers.Integral are modelled as identity / int"]
     from ..memokey import memo_rule
 
-    memo_rule(ctx, rep, "C26-key", ["ufl.cell"])
     return rep
